@@ -1,6 +1,7 @@
 SPECIFICATION TSpec
 CONSTANT Archives = {}
 CONSTANT MaxCalls = 99
+CONSTANT WriteGuarded = TRUE
 CONSTANT TestZipResets = TRUE
 CONSTRAINT Done
 CHECK_DEADLOCK FALSE
